@@ -59,6 +59,7 @@ type Obligation struct {
 	Using  []string
 	Extra  []string // extra assert commands (instantiated lemmas)
 	Unsupported string
+	TypeFact bool // decided by go/types; goal is literally true or false
 	Expr   Expr // the clause (for replay compilation)
 }
 
